@@ -115,13 +115,16 @@ impl Property for C07 {
                     let other = states[peer].clone();
                     if let Ok(m) = states[r].try_merge(&other) { states[r] = m; }
                 } else {
+                    // a remove is also shipped as an operation: the peer drops exactly the tags the remover had observed
+                    let mut shipped: Option<std::collections::HashSet<redis_sim::replication::lattice::UniqueTag>> = None;
                     match &mut states[r] {
-                        CrdtValue::ORSet(o) => { if op == 3 { o.remove(&elem); } else { o.add(elem, rid); } }
-                        CrdtValue::GCounter(g) => g.increment_by(rid, 1 + op),
-                        CrdtValue::PNCounter(p) => { if op % 2 == 0 { p.increment_by(rid, 1 + op) } else { p.decrement_by(rid, 1 + op) } }
-                        CrdtValue::GSet(g) => { g.add(elem); }
+                        CrdtValue::ORSet(o) => { if op == 3 { let tags = o.remove(&elem); if peer != r && !tags.is_empty() { shipped = Some(tags); } } else { o.add(elem.clone(), rid); } }
+                        CrdtValue::GCounter(g) => if op == 0 { g.increment(rid) } else { g.increment_by(rid, 1 + op) },
+                        CrdtValue::PNCounter(p) => { if op == 0 { p.increment(rid) } else if op == 1 { p.decrement(rid) } else if op % 2 == 0 { p.increment_by(rid, 1 + op) } else { p.decrement_by(rid, 1 + op) } }
+                        CrdtValue::GSet(g) => { g.add(elem.clone()); }
                         _ => {}
                     }
+                    if let (Some(tags), CrdtValue::ORSet(po)) = (shipped, &mut states[peer]) { po.apply_remove(&elem, &tags); rep.probe("orset_remove_shipped_as_operation"); }
                 }
                 t += 1;
                 let mut v = ReplicatedValue::with_crdt(states[r].clone(), rid);
